@@ -50,7 +50,7 @@ finally:
     shutil.rmtree(tmp, ignore_errors=True)
 # the deductive fragment: contracts tagged C20 in /repo/gotype/contracts_verif.go (init/enabled: a
 # capacity <= 0 leaves the cache disabled), discharged by govc; its violations are passed through
-gv = subprocess.run([os.path.join(root, 'bin', 'govc'), 'check', '-prop', 'C20', '-no-evidence'] + (['-thorough'] if tier == 'thorough' and False else []),
+gv = subprocess.run([os.path.join(root, 'bin', 'govc'), 'check', '-prop', 'C20', '-no-evidence'],
                     cwd=root, env=env, capture_output=True, text=True)
 gout = gv.stdout + gv.stderr
 gsum = re.search(r'functions=(\d+) obligations=(\d+) discharged=(\d+)', gout)
@@ -89,7 +89,8 @@ ev = {
                  'the Go runtime map and string comparison are trusted', 'deductive fragment: only symbolCache.init/enabled are under contract (capacity <= 0 disables the cache); get/lookup/add/list operations are NOT (bounded stand-in)'] + notes,
  'wall_s': round(time.time() - t0, 2), 'violations': violations}
 os.makedirs(os.path.join(root, 'evidence'), exist_ok=True)
-json.dump(ev, open(os.path.join(root, 'evidence', 'C20.json'), 'w'), indent=1)
+if os.path.realpath(repo) == '/repo':  # runs against a scratch copy (mutation testing) leave the evidence alone
+    json.dump(ev, open(os.path.join(root, 'evidence', 'C20.json'), 'w'), indent=1)
 for n in notes: print('note:', n)
 if gviol and not new_fails:
     print('c20: deductive fragment violated'); sys.exit(1)
